@@ -142,7 +142,7 @@ inductive Fn
   | applyDeb | applyDC | mapOverLocations | runFunc | markUnassigned | uniqueMask | idxWindow
   | applyLocationRW | applyLocationDC | applyLocationISIMIP
   | aowLS | aowQM | standardQm | qmConstExtrap | aowECDFM
-  | aowCDFt | cdftSteps | aowQDM | qdmSteps | aowSDM | sdmRel | sdmAbs | dcWithin
+  | aowCDFt | cdftSteps | cdftRandomize | distCdf | aowQDM | qdmSteps | aowSDM | sdmRel | sdmAbs | dcWithin
   | step1 | step1Debiased | isiAow | step2 | step2Impute | step3 | step3Remove | step4 | step4Lower | step4Upper
   | step5 | step5Transfer | step6 | step6MaskLower | step6MaskUpper | step7 | step8
   deriving DecidableEq, Repr
@@ -159,6 +159,8 @@ def Fn.py : Fn → String
   | .standardQm => "QuantileMapping._standard_qm"
   | .qmConstExtrap => "quantile_map_non_parametically_with_constant_extrapolation"
   | .aowECDFM => "ECDFM.apply_on_window" | .aowCDFt => "CDFt.apply_on_window" | .cdftSteps => "CDFt._apply_debiasing_steps"
+  | .cdftRandomize => "CDFt._randomize_zero_values_between_zero_and_threshold"
+  | .distCdf => "<self.distribution>.cdf"
   | .aowQDM => "QuantileDeltaMapping.apply_on_window" | .qdmSteps => "QuantileDeltaMapping._apply_debiasing_steps"
   | .aowSDM => "ScaledDistributionMapping.apply_on_window"
   | .sdmRel => "ScaledDistributionMapping._apply_on_window_relative_sdm"
@@ -177,16 +179,28 @@ def Fn.py : Fn → String
 def allFns : List Fn := [
   .applyDeb, .applyDC, .mapOverLocations, .runFunc, .markUnassigned, .uniqueMask, .idxWindow,
   .applyLocationRW, .applyLocationDC, .applyLocationISIMIP, .aowLS, .aowQM, .standardQm, .qmConstExtrap, .aowECDFM,
-  .aowCDFt, .cdftSteps, .aowQDM, .qdmSteps, .aowSDM, .sdmRel, .sdmAbs, .dcWithin,
+  .aowCDFt, .cdftSteps, .cdftRandomize, .distCdf, .aowQDM, .qdmSteps, .aowSDM, .sdmRel, .sdmAbs, .dcWithin,
   .step1, .step1Debiased, .isiAow, .step2, .step2Impute, .step3, .step3Remove, .step4, .step4Lower, .step4Upper,
   .step5, .step5Transfer, .step6, .step6MaskLower, .step6MaskUpper, .step7, .step8]
 
 /-! ## programs -/
 
+/-- what switches a draw site on -/
+inductive RngGuard
+  | cdftSSR                 -- CDFt with `SSR = True`
+  | isimipImpute            -- ISIMIP with `impute_missing_values = True` (and a missing value in the window)
+  | isimipLower             -- ISIMIP with a lower bound and a lower threshold
+  | isimipUpper             -- ISIMIP with an upper bound and an upper threshold
+  | hurdleRandomization     -- `distribution` is a `gen_PrecipitationHurdleModel` with `cdf_randomization = True`
+  | censoredModel           -- `distribution` is a `gen_PrecipitationGammaLeftCensoredModel`
+  deriving DecidableEq, Repr
+
+
 inductive Stmt
   | alias (dst src : V) (op : NpOp)                        -- `dst` names the buffer of `src` (op is `name` / `basicSlice`)
   | fresh (dst : V) (op : NpOp) (srcs : List V)            -- `dst` names a newly allocated buffer computed from `srcs`
   | store (tgt : V)                                        -- an in-place write into the buffer of `tgt`
+  | draw (g : RngGuard)                                    -- `np.random.<f>(…)`: consumes numpy's GLOBAL generator if the guard is on
   | call (fn : Fn) (args : List (V × V)) (rets : List (V × V))
       -- `args`: (parameter, caller variable) — an unbound caller variable is Python's `None`: the parameter stays unbound;
       -- `rets`: (caller variable, callee variable) bound after the body has run
@@ -308,7 +322,7 @@ def body (c : Cfg) : Fn → List Stmt
   | .dcWithin => [fresh ret arith [obs, cmHist, cmFuture]]
   -- LinearScaling / ECDFM
   | .aowLS => [fresh ret arith [obs, cmHist, cmFuture]]
-  | .aowECDFM => [fresh ret arith [obs, cmHist, cmFuture]]
+  | .aowECDFM => [call .distCdf [] [(t1, ret)], fresh ret arith [obs, cmHist, cmFuture]]
   -- QuantileMapping
   | .aowQM =>
       (match c with
@@ -320,7 +334,7 @@ def body (c : Cfg) : Fn → List Stmt
   | .standardQm =>
       (match c with
        | .qm _ _ _ false => [call .qmConstExtrap [(x, cmHist), (y, obs), (vals, x)] [(ret, ret)]]
-       | _ => [fresh ret libCall [x, obs, cmHist]])
+       | _ => [call .distCdf [] [(t1, ret)], fresh ret libCall [x, obs, cmHist]])
   | .qmConstExtrap => [fresh mappedVals libCall [x, y, vals], store mappedVals, store mappedVals, alias ret mappedVals name]
   -- CDFt
   | .aowCDFt =>
@@ -336,12 +350,16 @@ def body (c : Cfg) : Fn → List Stmt
   | .cdftSteps =>
       (match c with
        | .cdft _ _ _ ssr shift =>
-           onIf ssr [fresh obs where_ [obs], fresh cmHist where_ [cmHist], fresh cmFuture where_ [cmFuture]] ++
+           onIf ssr [call .cdftRandomize [(x, obs)] [(obs, ret)], call .cdftRandomize [(x, cmHist)] [(cmHist, ret)],
+                     call .cdftRandomize [(x, cmFuture)] [(cmFuture, ret)]] ++
            onIf shift [fresh cmHist arith [cmHist, obs], fresh cmFuture arith [cmFuture, obs, cmHist]] ++
            [fresh res libCall [obs, cmHist, cmFuture]] ++
            (if ssr then [fresh ret where_ [res]] else [alias ret res name])
        | _ => [])
-  -- QuantileDeltaMapping
+  | .cdftRandomize => [draw .cdftSSR, fresh ret where_ [x]]       -- `np.where(x == 0, np.random.uniform(…), x)`
+  -- `self.distribution.cdf(…)`: the two StatisticalModel classes that randomise inside `cdf`
+  | .distCdf => [draw .hurdleRandomization, draw .censoredModel, fresh ret libCall []]
+  -- QuantileDeltaMapping (uses `distribution.fit` / `.ppf` only: no `cdf`, hence no draw)
   | .aowQDM =>
       (match c with
        | .qdm e _ true _ =>
@@ -365,8 +383,8 @@ def body (c : Cfg) : Fn → List Stmt
        | _ => [call .sdmAbs dataArgs [(ret, ret)]])
   | .sdmRel =>
       [fresh obs sort [obs], fresh cmHist sort [cmHist], fresh cmFuture fancyIndex [cmFuture],
-       store obs, store cmHist, store cmFuture, store cmFuture, fresh ret fancyIndex [cmFuture]]
-  | .sdmAbs => [fresh ret arith [obs, cmHist, cmFuture]]
+       store obs, store cmHist, call .distCdf [] [(t1, ret)], store cmFuture, store cmFuture, fresh ret fancyIndex [cmFuture]]
+  | .sdmAbs => [call .distCdf [] [(t1, ret)], fresh ret arith [obs, cmHist, cmFuture]]
   -- ISIMIP
   | .applyLocationISIMIP =>
       (match c with
@@ -414,7 +432,7 @@ def body (c : Cfg) : Fn → List Stmt
            [call .step2Impute [(x, obsHist)] [(obsHist, ret)], call .step2Impute [(x, cmHist)] [(cmHist, ret)],
             call .step2Impute [(x, cmFuture)] [(cmFuture, ret)]]
        | _ => [])
-  | .step2Impute => [store x, store x, alias ret x name]         -- `x[mask] = …` on the ARGUMENT, returned as is
+  | .step2Impute => [draw .isimipImpute, store x, store x, alias ret x name]         -- `x[mask] = …` on the ARGUMENT, returned as is
   | .step3 =>
       [fresh trendCmFuture zerosLike [cmFuture]] ++
       (match c with
@@ -431,8 +449,8 @@ def body (c : Cfg) : Fn → List Stmt
            onIf upper [call .step4Upper [(vals, obsHist)] [(obsHist, ret)], call .step4Upper [(vals, cmHist)] [(cmHist, ret)],
                        call .step4Upper [(vals, cmFuture)] [(cmFuture, ret)]]
        | _ => [])
-  | .step4Lower => [store vals, alias ret vals name]               -- `vals[mask] = …` on the ARGUMENT
-  | .step4Upper => [store vals, alias ret vals name]
+  | .step4Lower => [draw .isimipLower, store vals, alias ret vals name]               -- `vals[mask] = …` on the ARGUMENT
+  | .step4Upper => [draw .isimipUpper, store vals, alias ret vals name]
   | .step5 =>
       (match c with
        | .isimipWindow _ _ _ _ true _ =>
@@ -453,6 +471,7 @@ def body (c : Cfg) : Fn → List Stmt
       [fresh cmFutureSorted fancyIndex [cmFuture], fresh sorted sort [obsHist], fresh sorted sort [obsFuture],
        fresh sorted sort [cmHist], fresh mappedVals copy [cmFutureSorted],
        call .step6MaskLower [] [(mask, ret)], call .step6MaskUpper [] [(mask, ret)],
+       call .distCdf [] [(t1, ret)],   -- the parametric branch of `_step6_adjust_values_between_thresholds` (and its KS test)
        store mappedVals, store mappedVals, store mappedVals, fresh ret fancyIndex [mappedVals]]
   | .step6MaskLower => [fresh mask zerosLike [], store mask, alias ret mask name]
   | .step6MaskUpper => [fresh mask zerosLike [], store mask, alias ret mask name]
@@ -517,6 +536,7 @@ def check (c : Cfg) : Nat → List Stmt → AEnv → Option AEnv
   | f + 1, .store t :: r, e => match alook e t with
       | some .own => check c f r e
       | _ => none
+  | f + 1, .draw _ :: r, e => check c f r e
   | f + 1, .call fn args rets :: r, e => match check c f (body c fn) (abindArgs e args) with
       | some e' => (match abindRets e' e rets with
           | some e'' => check c f r e''
@@ -580,6 +600,7 @@ def trace (c : Cfg) : Nat → List Stmt → AEnv → Option (AEnv × List TraceI
       | none => none
   | f + 1, .fresh d _ _ :: r, e => trace c f r ((d.ctorIdx, .own) :: e)
   | f + 1, .store _ :: r, e => trace c f r e
+  | f + 1, .draw _ :: r, e => trace c f r e
   | f + 1, .call fn args rets :: r, e => match trace c f (body c fn) (abindArgs e args) with
       | some (e', tr1) => (match abindRets e' e rets with
           | some e'' => (match trace c f r e'' with
@@ -598,6 +619,7 @@ abbrev CEnv := List (Nat × Nat)
 structure St (α : Type) where
   env : CEnv
   heap : List (List α)
+  rng : Nat := 0          -- how many values have been drawn from numpy's global generator so far
 
 def clookN : CEnv → Nat → Option Nat
   | [], _ => none
@@ -617,22 +639,26 @@ def cbindRets (callee e : CEnv) : List (V × V) → Option CEnv
       | some b => cbindRets callee ((d.ctorIdx, b) :: e) t
       | none => none
 
-/-- big-step execution.  What is written (`v`) is arbitrary: the theorems hold for every content. -/
-inductive Exec {α : Type} : Cfg → List Stmt → St α → St α → Prop
-  | nil (c : Cfg) (s : St α) : Exec c [] s s
-  | alias {c d src op r s t b} : clook s.env src = some b → Exec c r ⟨(d.ctorIdx, b) :: s.env, s.heap⟩ t →
-      Exec c (.alias d src op :: r) s t
-  | fresh {c d op srcs r s t} (v : List α) : Exec c r ⟨(d.ctorIdx, s.heap.length) :: s.env, s.heap ++ [v]⟩ t →
-      Exec c (.fresh d op srcs :: r) s t
-  | store {c tgt r s t b} (v : List α) : clook s.env tgt = some b → Exec c r ⟨s.env, s.heap.set b v⟩ t →
-      Exec c (.store tgt :: r) s t
-  | call {c fn args rets r s t0 env1 t} : Exec c (body c fn) ⟨cbindArgs s.env args, s.heap⟩ t0 →
-      cbindRets t0.env s.env rets = some env1 → Exec c r ⟨env1, t0.heap⟩ t →
-      Exec c (.call fn args rets :: r) s t
+/-- big-step execution.  What is written (`v`) and how many values a draw consumes (`n`) are arbitrary: the theorems
+    hold for every content.  `G` is the guard valuation of the instance (which random steps its settings switch on):
+    a draw whose guard is off consumes nothing. -/
+inductive Exec {α : Type} (G : RngGuard → Bool) : Cfg → List Stmt → St α → St α → Prop
+  | nil (c : Cfg) (s : St α) : Exec G c [] s s
+  | alias {c d src op r s t b} : clook s.env src = some b → Exec G c r ⟨(d.ctorIdx, b) :: s.env, s.heap, s.rng⟩ t →
+      Exec G c (.alias d src op :: r) s t
+  | fresh {c d op srcs r s t} (v : List α) : Exec G c r ⟨(d.ctorIdx, s.heap.length) :: s.env, s.heap ++ [v], s.rng⟩ t →
+      Exec G c (.fresh d op srcs :: r) s t
+  | store {c tgt r s t b} (v : List α) : clook s.env tgt = some b → Exec G c r ⟨s.env, s.heap.set b v, s.rng⟩ t →
+      Exec G c (.store tgt :: r) s t
+  | draw {c g r s t} (n : Nat) : (G g = false → n = 0) → Exec G c r ⟨s.env, s.heap, s.rng + n⟩ t →
+      Exec G c (.draw g :: r) s t
+  | call {c fn args rets r s t0 env1 t} : Exec G c (body c fn) ⟨cbindArgs s.env args, s.heap, s.rng⟩ t0 →
+      cbindRets t0.env s.env rets = some env1 → Exec G c r ⟨env1, t0.heap, t0.rng⟩ t →
+      Exec G c (.call fn args rets :: r) s t
   | callWin {c ci args d r s t0 b t} : ci.isInner = true →
-      Exec ci (body ci .isiAow) ⟨cbindArgs s.env args, s.heap⟩ t0 → clook t0.env ret = some b →
-      Exec c r ⟨(d.ctorIdx, b) :: s.env, t0.heap⟩ t →
-      Exec c (.callWin args d :: r) s t
+      Exec G ci (body ci .isiAow) ⟨cbindArgs s.env args, s.heap, s.rng⟩ t0 → clook t0.env ret = some b →
+      Exec G c r ⟨(d.ctorIdx, b) :: s.env, t0.heap, t0.rng⟩ t →
+      Exec G c (.callWin args d :: r) s t
 
 /-! ## the hand-written write-site table: why each target is not one of the caller's buffers -/
 
@@ -808,26 +834,16 @@ def isimipWindowArgsFresh : Bool :=
 
 /-! ## where random numbers are drawn -/
 
-/-- what switches a draw site on -/
-inductive RngGuard
-  | cdftSSR                 -- CDFt with `SSR = True`
-  | isimipImpute            -- ISIMIP with `impute_missing_values = True` (and a missing value in the window)
-  | isimipLower             -- ISIMIP with a lower bound and a lower threshold
-  | isimipUpper             -- ISIMIP with an upper bound and an upper threshold
-  | hurdleRandomization     -- `distribution` is a `gen_PrecipitationHurdleModel` with `cdf_randomization = True`
-  | censoredModel           -- `distribution` is a `gen_PrecipitationGammaLeftCensoredModel`
-  deriving DecidableEq, Repr
-
-/-- every call of `np.random.*` in the anchored files (all draw from numpy's GLOBAL generator), with its guard.  A
-    configuration none of whose guards is on is DETERMINISTIC: its output may not depend on the generator's state and a
-    call may not advance it (tier B checks exactly that). -/
-def rngSitesJ : List (RngSite × RngGuard) := [
-  (⟨"ibicus/debias/_cdft.py", "CDFt._randomize_zero_values_between_zero_and_threshold", "np.random.uniform", 1⟩, .cdftSSR),
-  (⟨"ibicus/debias/_isimip.py", Fn.step2Impute.py, "np.random.random", 1⟩, .isimipImpute),
-  (⟨"ibicus/debias/_isimip.py", Fn.step4Lower.py, "np.random.uniform", 1⟩, .isimipLower),
-  (⟨"ibicus/debias/_isimip.py", Fn.step4Upper.py, "np.random.uniform", 1⟩, .isimipUpper),
-  (⟨"ibicus/utils/_math_utils.py", "gen_PrecipitationHurdleModel.cdf", "np.random.uniform", 1⟩, .hurdleRandomization),
-  (⟨"ibicus/utils/_math_utils.py", "gen_PrecipitationGammaLeftCensoredModel.cdf", "np.random.uniform", 1⟩, .censoredModel)]
+/-- every call of `np.random.*` in the anchored files (all draw from numpy's GLOBAL generator), with its guard and the
+    modelled function whose body carries the corresponding `draw`.  A configuration none of whose guards is on is
+    DETERMINISTIC: its output may not depend on the generator's state and a call may not advance it. -/
+def rngSitesJ : List (RngSite × RngGuard × Fn) := [
+  (⟨"ibicus/debias/_cdft.py", Fn.cdftRandomize.py, "np.random.uniform", 1⟩, .cdftSSR, .cdftRandomize),
+  (⟨"ibicus/debias/_isimip.py", Fn.step2Impute.py, "np.random.random", 1⟩, .isimipImpute, .step2Impute),
+  (⟨"ibicus/debias/_isimip.py", Fn.step4Lower.py, "np.random.uniform", 1⟩, .isimipLower, .step4Lower),
+  (⟨"ibicus/debias/_isimip.py", Fn.step4Upper.py, "np.random.uniform", 1⟩, .isimipUpper, .step4Upper),
+  (⟨"ibicus/utils/_math_utils.py", "gen_PrecipitationHurdleModel.cdf", "np.random.uniform", 1⟩, .hurdleRandomization, .distCdf),
+  (⟨"ibicus/utils/_math_utils.py", "gen_PrecipitationGammaLeftCensoredModel.cdf", "np.random.uniform", 1⟩, .censoredModel, .distCdf)]
 
 def rngSites : List RngSite := rngSitesJ.map (·.1)
 
@@ -838,6 +854,36 @@ def Cfg.rngGuards : Cfg → List RngGuard
   | .isimipWindow impute _ lower upper _ _ =>
       (if impute then [.isimipImpute] else []) ++ (if lower then [.isimipLower] else []) ++ (if upper then [.isimipUpper] else [])
   | _ => []
+
+/-- draws of a program, as (function, guard) -/
+def drawsOf (fn : Fn) : List Stmt → List (Fn × RngGuard)
+  | [] => []
+  | .draw g :: r => (fn, g) :: drawsOf fn r
+  | _ :: r => drawsOf fn r
+
+def drawPairs : List (Fn × RngGuard) := rngSitesJ.map (fun x => (x.2.2, x.2.1))
+
+/-- every listed draw site is a `draw` of the body of its function (in some branch) -/
+def drawsBacked (witness : List Cfg) : Bool :=
+  drawPairs.all (fun p => witness.any (fun c => (drawsOf p.1 (body c p.1)).contains p))
+
+/-- every `draw` of every body is a listed site; a draw that a settings flag of the configuration switches on (the
+    CDFt and ISIMIP ones) occurs only in a configuration that declares the guard -/
+def drawsListed (c : Cfg) : Bool :=
+  allFns.all (fun fn => (drawsOf fn (body c fn)).all (fun p =>
+    drawPairs.contains p &&
+    (p.2 == .hurdleRandomization || p.2 == .censoredModel || c.rngGuards.contains p.2 ||
+     -- the ISIMIP window helpers are only ever called under their flag (`step2` / `step4` branch on it)
+     (fn == .step2Impute || fn == .step4Lower || fn == .step4Upper || fn == .cdftRandomize))))
+
+/-- which functions call the flag-guarded helpers: only under the flag -/
+def helperCallsGuarded (c : Cfg) : Bool :=
+  let calls (fn : Fn) (callee : Fn) : Bool := (body c fn).any (fun st => match st with | .call f _ _ => f == callee | _ => false)
+  allFns.all (fun fn =>
+    (!calls fn .step2Impute || c.rngGuards.contains .isimipImpute) &&
+    (!calls fn .step4Lower || c.rngGuards.contains .isimipLower) &&
+    (!calls fn .step4Upper || c.rngGuards.contains .isimipUpper) &&
+    (!calls fn .cdftRandomize || c.rngGuards.contains .cdftSSR))
 
 /-! ## the `self.<attr> = …` table -/
 
